@@ -126,6 +126,9 @@ func genCorpus(shape string, rng *vh.RNG) *corpus {
 		n = 3500
 		uniq = 12
 		c.crosses["tokens"] = true
+	case "hugedict": // one field with > 256 token blocks (> 4 MiB of token bytes): its token-table entries exceed one "portion"
+		n = 75000
+		c.crosses["tokens"], c.crosses["ids"], c.crosses["lids"] = true, true, true
 	case "manyfields": // hundreds of small fields: the token TABLE itself spans several 16 KiB blocks
 		n = 1500
 		c.crosses["tokens"] = true
@@ -174,6 +177,9 @@ func genCorpus(shape string, rng *vh.RNG) *corpus {
 				toks = append(toks, "par:even")
 			}
 		}
+		if shape == "hugedict" {
+			toks = append(toks, fmt.Sprintf("uid64:%s%08d", strings.Repeat("0123456789abcdef", 4), (i*7919)%100000000))
+		}
 		if shape == "manyfields" {
 			for _, fi := range []int{i % 700, (i * 7) % 700, (i / 2) % 700} {
 				toks = append(toks, fmt.Sprintf("fld%03d_%s:v%d", fi, strings.Repeat("x", 26), i%3))
@@ -182,6 +188,7 @@ func genCorpus(shape string, rng *vh.RNG) *corpus {
 		if uniq > 0 {
 			u := fmt.Sprintf("u%0*d", uniq-1, (i*7919)%1000000)
 			toks = append(toks, "uid:"+u, fmt.Sprintf("num:%d", 1000000+i)) // num: > 16 KiB dictionary of numbers growing with time
+			toks = append(toks, fmt.Sprintf("long:%s%06d", strings.Repeat("commonprefix", 7), (i*7919)%1000000)) // 90-byte tokens, 84-byte common prefix
 			extra = fmt.Sprintf(`,"uid":"%s"`, u)
 		}
 		if exact > 0 {
@@ -200,6 +207,19 @@ func genCorpus(shape string, rng *vh.RNG) *corpus {
 	}
 	if shape == "lids64k" {
 		c.queries = append(c.queries, "grp:all", "half:lo", "half:hi", "par:even", "grp:all AND half:hi", "half:lo OR par:even", "grp:all AND NOT par:even")
+	}
+	if shape == "hugedict" {
+		for k := 0; k < 30; k++ {
+			d := c.docs[rng.Intn(n)]
+			for _, t := range d.tokens {
+				if strings.HasPrefix(t, "uid64:") {
+					c.queries = append(c.queries, t)
+					if k%5 == 0 {
+						c.queries = append(c.queries, t[:len(t)-3]+"*")
+					}
+				}
+			}
+		}
 	}
 	if shape == "manyfields" {
 		for k := 0; k < 40; k++ {
@@ -220,6 +240,15 @@ func genCorpus(shape string, rng *vh.RNG) *corpus {
 			}
 		}
 		c.queries = append(c.queries, "uid:u0*", "uid:u00000*", "uid:*1", "uid:u9*")
+		for k := 0; k < 10; k++ {
+			d := c.docs[rng.Intn(n)]
+			for _, t := range d.tokens {
+				if strings.HasPrefix(t, "long:") {
+					c.queries = append(c.queries, t, t[:len(t)-2]+"*")
+				}
+			}
+		}
+		c.queries = append(c.queries, "long:"+strings.Repeat("commonprefix", 7)+"5*", "long:commonprefixcommon*")
 	}
 	if exact > 0 {
 		for k := 0; k < 8; k++ {
@@ -564,6 +593,9 @@ func runSysCaseInProcess(c sysCase, dir string) *sysResult {
 		return res
 	}
 	res.Stats["seal_ms"] = strconv.FormatInt(time.Since(t0).Milliseconds(), 10)
+	// the proxy fraction keeps serving from the active form until Seal has returned and the sealed form is swapped in:
+	// sealing must not change what the (not yet released) active fraction answers
+	forms = append(forms, run("active-after-seal", active, nil))
 	csB := newCacheSet(512)
 	sealedB := frac.NewSealedPreloaded(base, pre, readLimiter, csB.index, csB.docs, cfg)
 	forms = append(forms, run("preloaded", sealedB, nil))
@@ -629,11 +661,16 @@ func runSysCaseInProcess(c sysCase, dir string) *sysResult {
 				switch {
 				case strings.HasPrefix(f.ans[i], "panic") || strings.HasPrefix(a, "panic"):
 					class = "panic"
+				case f.name == "active-after-seal":
+					class = "active-changed-by-seal"
+				case f.name == "preloaded-after-release" && forms[4].ans[i] != forms[2].ans[i]:
+					// its caches were emptied: what it re-reads from the files is what a freshly loaded fraction reads
+					class = "loaded-vs-preloaded-mismatch"
 				case f.name == "preloaded-after-release":
 					class = "preloaded-broken-after-active-release"
-				case f.name != "preloaded" && f.ans[i] != forms[1].ans[i] && strings.HasPrefix(f.name, "loaded-tiny") && forms[3].ans[i] == forms[1].ans[i]:
+				case f.name != "preloaded" && f.ans[i] != forms[2].ans[i] && strings.HasPrefix(f.name, "loaded-tiny") && forms[4].ans[i] == forms[2].ans[i]:
 					class = "cache-size-dependence"
-				case f.name != "preloaded" && f.ans[i] != forms[1].ans[i]:
+				case f.name != "preloaded" && f.ans[i] != forms[2].ans[i]:
 					class = "loaded-vs-preloaded-mismatch"
 				}
 				if r.kind == "fetch" && class != "panic" {
@@ -950,6 +987,8 @@ func mismatchSite(m sysMismatch) string {
 	switch {
 	case strings.Contains(m.Class, "earlier-sealed-fraction-changed-by-later-seal"):
 		return "frac/active_sealer.go:writeSealedFraction"
+	case strings.Contains(m.Class, "active-changed-by-seal"):
+		return "frac/active_sealer.go:writeSealedFraction"
 	case strings.Contains(m.Class, "preloaded-broken-after-active-release"):
 		return "frac/active.go:Release"
 	case strings.HasPrefix(m.Class, "fetch"):
@@ -1027,11 +1066,11 @@ func runSystemOracle(o vh.Opts, rng *vh.RNG, rep *vh.Report, tmp string) {
 	}
 	cases = append(cases, sysCase{Shape: "ids2", Seed: int64(rng.U64() >> 2), SkipSort: false, Zstd: 1, DocBlock: 4096, CacheKB: 8, OnlyReq: -1})
 	if o.Thorough() {
-		for i, sh := range []string{"ids-exact", "ids-exact1", "bigdict", "exactdict", "lids64k", "ids2", "bigdict", "manyfields", "manyfields"} {
+		for i, sh := range []string{"ids-exact", "ids-exact1", "bigdict", "exactdict", "lids64k", "ids2", "bigdict", "manyfields", "manyfields", "hugedict"} {
 			cases = append(cases, sysCase{Shape: sh, Seed: int64(rng.U64() >> 2), SkipSort: i%2 == 0, Zstd: zs[i%4], DocBlock: []int{2048, 0, 512}[i%3], CacheKB: []int{4, 16, 1}[i%3], OnlyReq: -1})
 		}
 	} else {
-		for i, sh := range []string{"bigdict", "lids64k", "ids-exact", "exactdict", "manyfields"} {
+		for i, sh := range []string{"bigdict", "lids64k", "ids-exact", "exactdict", "manyfields", "hugedict"} {
 			cases = append(cases, sysCase{Shape: sh, Seed: int64(rng.U64() >> 2), SkipSort: i%2 == 0, Zstd: zs[(i+1)%4], DocBlock: []int{1024, 0, 256}[i%3], CacheKB: []int{4, 16, 1}[i%3], OnlyReq: -1})
 		}
 	}
